@@ -245,6 +245,40 @@ def real_remap(inp, ptx, bpt_s, prefix="SUPER_", join_gap=JOIN_GAP):
         return {"err": conv.errkind(e)}
 
 
+def real_remap_history(inp, maps, bpt_s, prefix="SUPER_", join_gap=JOIN_GAP):
+    """several remaps, one after the other, onto ONE IndexedAssembly object (and in one process); returns the result of the LAST
+    map in real_remap's shape.  `maps` = list of Pretext scaffold lists."""
+    from tola.assembly.assembly import Assembly
+    from tola.assembly.indexed_assembly import IndexedAssembly
+    from tola.assembly.build_assembly import BuildAssembly
+    from tola.assembly.gap import Gap
+    in_asm = Assembly("in", scaffolds=[conv.to_real_scaffold(s) for s in inp])
+    ia = IndexedAssembly.new_from_assembly(in_asm)
+    last = None
+    for ptx in maps:
+        try:
+            pa = Assembly("ptx", header=[f"HiC MAP RESOLUTION: {bpt_s} bp/texel"], scaffolds=[conv.to_real_scaffold(s) for s in ptx])
+            ba = BuildAssembly("out", default_gap=(Gap(join_gap["len"], join_gap["type"]) if join_gap else None), autosome_prefix=prefix)
+            ba.remap_to_input_assembly(pa, ia)
+            outs = ba.assemblies_with_scaffolds_fused()
+            st = ba.assembly_stats
+            asms = []
+            for k, a in outs.items():
+                csv = st.chromosome_name_csv(a)
+                lines = []
+                if csv:
+                    for l in csv.splitlines():
+                        x = l.split(",")
+                        lines.append([x[0], x[1], x[2] == "yes"])
+                asms.append({"key": k, "curated": bool(a.curated), "scaffolds": [conv.canon_scaffold(conv.from_real_scaffold(s)) for s in a.scaffolds],
+                             "chr_csv": lines})
+            per = [[k, v["manual_breaks"], v["manual_joins"]] for k, v in st.per_assembly_stats.items()]
+            last = {"ok": {"assemblies": asms, "stats": {"cuts": st.cuts, "breaks": st.breaks, "joins": st.joins, "per_assembly": per}}}
+        except Exception as e:
+            last = {"err": conv.errkind(e)}
+    return last
+
+
 def model_requests(cases):
     return [{"id": i, "kind": "remap", "input": c["input"], "ptx": c["ptx"], "prefix": c.get("prefix", "SUPER_"),
              "join_gap": c.get("join_gap", JOIN_GAP), "bpt": c["bpt"]} for i, c in enumerate(cases)]
